@@ -155,13 +155,14 @@ theorem Rep.grow {h : H} {ring : Nat} {Q : List Nat} {q : List (Option Nat)}
 theorem Rep.appendBack {b : Buf} {Q F : List Nat} {q : List (Option Nat)}
     (r : Rep b.heap b.ring Q F q) (he : b.end = Q.length) (hb : 1 ≤ b.bsize) (v : Option Nat) :
     ∃ Q' F', Rep (b.appendBack v).heap (b.appendBack v).ring Q' F' (q ++ [v]) ∧
-      (b.appendBack v).end = Q'.length ∧ (b.appendBack v).bsize = b.bsize := by
+      (b.appendBack v).end = Q'.length ∧ (b.appendBack v).bsize = b.bsize ∧
+      ((F'.length : Int) = if F = [] then b.bsize - 1 else (F.length : Int) - 1) := by
   have hlen := r.len_eq
   cases F with
   | cons f F' =>
     have hc : ¬ (b.end ≥ (len b.heap b.ring : Int)) := by
       rw [hlen, he]; simp; omega
-    refine ⟨Q ++ [f], F', ?_, ?_, rfl⟩
+    refine ⟨Q ++ [f], F', ?_, ?_, rfl, by simp⟩
     · simp only [Buf.appendBack, hc, if_false]
       rw [he, r.move_end]
       exact r.store v
@@ -172,7 +173,7 @@ theorem Rep.appendBack {b : Buf} {Q F : List Nat} {q : List (Option Nat)}
     obtain ⟨n, hn⟩ : ∃ n : Nat, b.bsize = ((n + 1 : Nat) : Int) := ⟨(b.bsize - 1).toNat, by omega⟩
     have g := r.grow n
     rw [List.range'_succ] at g
-    refine ⟨Q ++ [b.heap.size], List.range' (b.heap.size + 1) n, ?_, ?_, rfl⟩
+    refine ⟨Q ++ [b.heap.size], List.range' (b.heap.size + 1) n, ?_, ?_, rfl, by simp [hn]⟩
     · simp only [Buf.appendBack, hc, if_true]
       rw [hn, he]
       have hm := g.move_end
@@ -290,13 +291,15 @@ theorem Rep.removeFront {b : Buf} {Q F : List Nat} {q : List (Option Nat)}
     (r : Rep b.heap b.ring Q F q) (he : b.end = Q.length) (hb : 1 ≤ b.bsize) :
     ∃ Q' F', Rep b.removeFront.1.heap b.removeFront.1.ring Q' F' q.tail ∧
       b.removeFront.1.end = Q'.length ∧ b.removeFront.1.bsize = b.bsize ∧
-      b.removeFront.2 = q.tail.head?.getD none := by
+      b.removeFront.2 = q.tail.head?.getD none ∧
+      ((F'.length : Int) = if Q = [] then (F.length : Int)
+        else if (F.length : Int) + 1 > 2 * b.bsize then (F.length : Int) + 1 - b.bsize else (F.length : Int) + 1) := by
   cases Q with
   | nil =>
     have hq : q = [] := by rw [← r.vals]; rfl
     subst hq
     have he0 : b.end = 0 := by simpa using he
-    refine ⟨[], F, ?_, ?_, ?_, ?_⟩ <;> simp [Buf.removeFront, he0]
+    refine ⟨[], F, ?_, ?_, ?_, ?_, by simp⟩ <;> simp [Buf.removeFront, he0]
     exact r
   | cons a Q'' =>
     have hring : b.ring = a := by have := r.head; simpa using this.symm
@@ -317,9 +320,20 @@ theorem Rep.removeFront {b : Buf} {Q F : List Nat} {q : List (Option Nat)}
           have : (F ++ [a]).length = F1.length + 1 := by rw [hF]; rfl
           push_cast at hc; omega
         have hs := hp.shrink n hl
-        exact ⟨Q'', f0 :: F1.drop (n + 1), hs, rfl, trivial, hs.front⟩
+        refine ⟨Q'', f0 :: F1.drop (n + 1), hs, rfl, trivial, hs.front, ?_⟩
+        have h2 : (F ++ [a]).length = F1.length + 1 := by rw [hF]; rfl
+        simp only [List.length_append, List.length_singleton] at h2
+        have hcond : (F.length : Int) + 1 > 2 * ((n + 1 : Nat) : Int) := by push_cast; omega
+        simp only [List.length_cons, List.length_drop, reduceCtorEq, if_false, hcond, if_true]
+        push_cast; omega
     · simp only [hc, if_false]
-      exact ⟨Q'', F ++ [a], hp, rfl, trivial, hp.front⟩
+      refine ⟨Q'', F ++ [a], hp, rfl, trivial, hp.front, ?_⟩
+      have hcond : ¬ ((F.length : Int) + 1 > 2 * ((n + 1 : Nat) : Int)) := by
+        rw [hlen] at hc
+        simp only [List.length_append, List.length_singleton] at hc
+        push_cast at hc ⊢; omega
+      simp only [reduceCtorEq, if_false, List.length_append, List.length_singleton]
+      rw [if_neg hcond]; push_cast; rfl
 
 theorem rangeLoop_links {h : H} (stop : Option Nat → Bool) (x : Nat) (A B : List Nat) (acc : List (Option Nat))
     (hl : Links h (x :: A ++ B)) :
@@ -377,11 +391,11 @@ theorem BInv.step {b : Buf} {q : List (Option Nat)} (hi : BInv b q) (op : BOp) :
   obtain ⟨Q, F, r, he, hb⟩ := hi
   cases op with
   | append v =>
-    obtain ⟨Q', F', r', he', hb'⟩ := r.appendBack he hb v
+    obtain ⟨Q', F', r', he', hb', _⟩ := r.appendBack he hb v
     show BInv (b.appendBack v) (q ++ [v]) ∧ BOut.unit = BOut.unit
     exact ⟨⟨Q', F', r', he', by rw [hb']; exact hb⟩, rfl⟩
   | removeFront =>
-    obtain ⟨Q', F', r', he', hb', hv⟩ := r.removeFront he hb
+    obtain ⟨Q', F', r', he', hb', hv, _⟩ := r.removeFront he hb
     show BInv b.removeFront.1 q.tail ∧ BOut.val b.removeFront.2 = BOut.val (q.tail.head?.getD none)
     exact ⟨⟨Q', F', r', he', by rw [hb']; exact hb⟩, by rw [hv]⟩
   | front =>
@@ -401,5 +415,58 @@ theorem BInv.run {b : Buf} {q : List (Option Nat)} (hi : BInv b q) (ops : List B
   | cons op ops ih =>
     obtain ⟨h1, h2⟩ := hi.step op
     simp only [Buf.run, Queue.run, h2, ih h1]
+
+/-- the invariant with the memory bound: never more than `M` free nodes -/
+def BInvB (bs M : Int) (b : Buf) (q : List (Option Nat)) : Prop :=
+  ∃ Q F, Rep b.heap b.ring Q F q ∧ b.end = Q.length ∧ b.bsize = bs ∧ (F.length : Int) ≤ M
+
+theorem BInvB.new (initial bsize : Int) :
+    BInvB (if bsize < 1 then 1 else bsize)
+      (max (if initial < 1 then 1 else initial) (2 * (if bsize < 1 then 1 else bsize)))
+      (Buf.new initial bsize) [] := by
+  obtain ⟨n, hn⟩ : ∃ n : Nat, (if initial < 1 then 1 else initial) = ((n + 1 : Nat) : Int) :=
+    ⟨((if initial < 1 then 1 else initial) - 1).toNat, by split <;> omega⟩
+  obtain ⟨e2, _, hF, _, hnone⟩ := new_spec (#[] : H) n (none : Option Nat)
+  unfold Buf.new
+  simp only [hn]
+  generalize Ring.new (#[] : H) ((n + 1 : Nat) : Int) none = res at e2 hF hnone
+  obtain ⟨h1, s⟩ := res
+  simp only at e2 hF hnone
+  subst e2
+  simp only
+  refine ⟨[], List.range' 0 (n + 1), ⟨by simpa using hF, by simp [List.range'_succ], rfl, by simpa using hnone⟩, rfl, rfl, ?_⟩
+  simp only [List.length_range']
+  omega
+
+theorem BInvB.step {bs M : Int} (hbs : 1 ≤ bs) (hM : 2 * bs ≤ M) {b : Buf} {q : List (Option Nat)}
+    (hi : BInvB bs M b q) (op : BOp) : BInvB bs M (b.step op).1 (Queue.step q op).1 := by
+  obtain ⟨Q, F, r, he, hb, hF⟩ := hi
+  have hb1 : 1 ≤ b.bsize := by rw [hb]; exact hbs
+  cases op with
+  | append v =>
+    obtain ⟨Q', F', r', he', hb', hl⟩ := r.appendBack he hb1 v
+    show BInvB bs M (b.appendBack v) (q ++ [v])
+    refine ⟨Q', F', r', he', by rw [hb', hb], ?_⟩
+    rw [hl]; split <;> omega
+  | removeFront =>
+    obtain ⟨Q', F', r', he', hb', _, hl⟩ := r.removeFront he hb1
+    show BInvB bs M b.removeFront.1 q.tail
+    refine ⟨Q', F', r', he', by rw [hb', hb], ?_⟩
+    rw [hl]
+    split
+    · exact hF
+    · split <;> omega
+  | front => exact ⟨Q, F, r, he, hb, hF⟩
+  | len => exact ⟨Q, F, r, he, hb, hF⟩
+  | range s => exact ⟨Q, F, r, he, hb, hF⟩
+
+/-- what the bounded invariant says about the observable quantities -/
+theorem BInvB.bounds {bs M : Int} {b : Buf} {q : List (Option Nat)} (hi : BInvB bs M b q) :
+    0 ≤ b.len ∧ b.len ≤ (Ring.len b.heap b.ring : Int) ∧ (Ring.len b.heap b.ring : Int) - b.len ≤ M := by
+  obtain ⟨Q, F, r, he, _, hF⟩ := hi
+  have := r.len_eq
+  simp only [Buf.len, he, this]
+  push_cast
+  omega
 
 end Kit.Ring
